@@ -125,3 +125,102 @@ def split_spec(s: Str, d: Str, preserve: Bool) -> Seq[Str]:
     if len(s) > 0 and s[-1] == d:
         return split_from(s, d, d != ' ', preserve, 0) + ['']
     return split_from(s, d, d != ' ', preserve, 0)
+
+
+# ---------------------------------------------------------------- lines (C12): LF | CR | CRLF
+@spec
+def is_nl_char(c: Str) -> Bool:
+    return c == '\n' or c == '\r'
+
+
+@spec
+def first_nl(s: Str, i: Int) -> Int:
+    # index of the first line-break character at or after i, or -1
+    if i < 0 or i >= len(s):
+        return -1
+    if is_nl_char(s[i]):
+        return i
+    return first_nl(s, i + 1)
+
+
+@spec
+def nl_len(s: Str, p: Int) -> Int:
+    # length of the line break that starts at p: CRLF is one break
+    if s[p] == '\r' and p + 1 < len(s) and s[p + 1] == '\n':
+        return 2
+    return 1
+
+
+@spec
+def first_line(s: Str) -> Str:
+    # a final line without terminator is still a line
+    if first_nl(s, 0) == -1:
+        return s
+    return s[:first_nl(s, 0)]
+
+
+@spec
+def after_first_line(s: Str) -> Str:
+    if first_nl(s, 0) == -1:
+        return ''
+    return s[first_nl(s, 0) + nl_len(s, first_nl(s, 0)):]
+
+
+@lemma
+def first_nl_props(s: Str, i: Int, m: Int):
+    props('C12')
+    requires(m >= 0 and m == len(s) - i and 0 <= i)
+    ensures(first_nl(s, i) == -1 or (i <= first_nl(s, i) and first_nl(s, i) < len(s) and is_nl_char(s[first_nl(s, i)])), 'found_is_a_break')
+    ensures(forall(Int, lambda k: implies(i <= k and k < len(s) and (first_nl(s, i) == -1 or k < first_nl(s, i)), not is_nl_char(s[k]))), 'nothing_before')
+    induct(m)
+    generalize(i)
+    measure(m, len(s) - i)
+
+
+@lemma
+def first_nl_prefix(a: Str, b: Str, i: Int, m: Int):
+    # a break found in a prefix is the first break of the whole text: what was already buffered decides the line
+    props('C12')
+    requires(m >= 0 and m == len(a) - i and 0 <= i)
+    ensures(implies(first_nl(a, i) != -1, first_nl(a + b, i) == first_nl(a, i)), 'prefix_decides')
+    hint(implies(i < len(a), (a + b)[i] == a[i]))
+    induct(m)
+    generalize(i)
+    measure(m, len(a) - i)
+
+
+@lemma
+def first_nl_shift(a: Str, b: Str, j: Int, m: Int):
+    props('C12')
+    requires(m >= 0 and m == len(b) - j and 0 <= j)
+    ensures(implies(first_nl(b, j) != -1, first_nl(a + b, len(a) + j) == first_nl(b, j) + len(a)), 'shifted')
+    hint(implies(j < len(b), (a + b)[len(a) + j] == b[j]))
+    induct(m)
+    generalize(j)
+    measure(m, len(b) - j)
+
+
+@lemma
+def first_nl_suffix(a: Str, b: Str, i: Int, m: Int):
+    # a break in what was appended is a break of the whole buffer
+    props('C12')
+    requires(m >= 0 and m == len(a) - i and 0 <= i)
+    uses(first_nl_shift(a, b, 0, len(b)))
+    uses(first_nl_props(b, 0, len(b)))
+    ensures(implies(first_nl(b, 0) != -1, first_nl(a + b, i) != -1), 'appended_break_is_found')
+    hint(implies(i < len(a), (a + b)[i] == a[i]))
+    hint(implies(first_nl(b, 0) != -1, first_nl(a + b, len(a) + 0) == first_nl(b, 0) + len(a)))
+    hint(implies(i < len(a) and first_nl(b, 0) != -1, first_nl(a + b, i + 1) != -1))
+    induct(m)
+    generalize(i)
+    measure(m, len(a) - i)
+
+
+@spec
+def strip_bom(line: Str, enc: Opt[Str]) -> Str:
+    # a leading UTF-8 byte order mark as it appears after decoding: U+FEFF (utf-8) or EF BB BF (latin-1)
+    if (not is_none(enc)) and opt_val(enc) == 'utf-8' and len(line) >= 1 and line[0] == '﻿':
+        return line[1:]
+    if (not is_none(enc)) and opt_val(enc) == 'latin-1' and len(line) >= 3 and line[:3] == '\xef\xbb\xbf':
+        return line[3:]
+    return line
